@@ -276,4 +276,11 @@ def run_check(mod, ctx, prop, tier, seed, t0, args):
 
 
 if __name__ == '__main__':
-    main()
+    try:
+        main()
+    except SystemExit:
+        raise
+    except BaseException as ex:       # build failure, engine crash, ...: inconclusive, never a verdict
+        traceback.print_exc()
+        print('INCONCLUSIVE: the check could not be carried out: %r' % (ex,))
+        sys.exit(2)
